@@ -49,6 +49,7 @@ type recorder struct {
 	onRecover func(replica uint64)
 	// powerLoss: an on-disk state machine is durable only up to its last Sync
 	synced map[uint64]*disk
+	syncs  int
 }
 
 // disk is the persistent store of one replica's on-disk state machine; it
@@ -394,7 +395,30 @@ func (d kvDSM) Update(ents []sm.Entry) ([]sm.Entry, error) {
 	return ents, nil
 }
 
-func (d kvDSM) Sync() error { return nil }
+// Sync makes what the state machine holds durable: after a power loss the store is
+// back at its last Sync (recorder.powerLoss), dragonboat replays the rest.
+func (d kvDSM) Sync() error {
+	s := d.kvSM
+	s.rec.mu.Lock()
+	defer s.rec.mu.Unlock()
+	if dk := s.rec.disks[s.replica]; dk != nil {
+		s.rec.synced[s.replica] = dk // persist() never modifies a disk value, it replaces it
+		s.rec.syncs++
+	}
+	return nil
+}
+
+// powerLoss throws away what the on-disk state machine of a replica wrote after
+// its last Sync.
+func (r *recorder) powerLoss(replica uint64) {
+	r.mu.Lock()
+	defer r.mu.Unlock()
+	if dk, ok := r.synced[replica]; ok {
+		r.disks[replica] = dk
+	} else {
+		delete(r.disks, replica)
+	}
+}
 
 func (d kvDSM) PrepareSnapshot() (interface{}, error) {
 	var b sliceWriter
